@@ -3,6 +3,7 @@ CONSTANTS
   NCalls = 2
   Keys <- Keys2
   Full = TRUE
+  Big = TRUE
   MaxSteps = 5
   Subs <- SubsFew
   MaxNote = 4
